@@ -2,9 +2,14 @@
    Statements only; every proof is `exact` of a lemma of Proof/Upgrade*.v.  The histories are lists of the events
    {USR2, Stop (TERM / INT / QUIT), child exit noticed, parent death noticed, HUP, WINCH} addressed to either master. *)
 From Coq Require Import List ZArith Bool Lia.
-From GV Require Import Model.Upgrade Proof.UpgradeInv Proof.UpgradePid Proof.UpgradeThm.
+From GV Require Import Gen.GenUpgrade Model.Upgrade Proof.UpgradeInv Proof.UpgradePid Proof.UpgradeThm.
 Import ListNotations.
 Local Open Scope Z_scope.
+
+(* read from the tree (gen_upgrade.py): start() appends ".2" to the pid-file name of a re-executed master - the model has
+   this built in, so the table must agree *)
+Lemma start_table : start_names_dot2 = true.
+Proof. vm_compute. reflexivity. Qed.
 
 (* after ANY history: while a master lives, the unix socket file exists (no master ever unlinks it under another) *)
 Theorem socket_survives_first_exit : forall c es, unixb c = true ->
@@ -99,9 +104,13 @@ Proof.
 Qed.
 Print Assumptions rollback_restores.
 
-(* finding: HUP to the re-executed master while the old one lives ends it (reload() ignores master_pid when naming the file) *)
+(* finding: HUP to the re-executed master while the old one lives ends it, as long as reload() names the pid file without
+   ".2" (reload_names_dot2 = false on the tree as it stands; fixes/reload-pidfile-child-master.diff makes it true, and then
+   the new master survives the HUP holding '<pidfile>.2') *)
 Theorem hup_to_new_master_refuted :
-  exists c, let s := run c (init c) [USR2 A; HUP B] in m_alive (mb s) = false /\ m_status (mb s) = 255 /\ m_alive (ma s) = true.
+  exists c, let s := run c (init c) [USR2 A; HUP B] in
+    if reload_names_dot2 then m_alive (mb s) = true /\ fsP2 s = Some (m_pid (mb s)) /\ fsP s = Some (m_pid (ma s))
+    else m_alive (mb s) = false /\ m_status (mb s) = 255 /\ m_alive (ma s) = true.
 Proof. exists (mkCfg true true false false 1). vm_compute. repeat split. Qed.
 
 (* ---- non-vacuity --------------------------------------------------------------------------------------------------------- *)
